@@ -11335,6 +11335,12 @@ func (p *parser) visitAndAppendStmt(stmts []js_ast.Stmt, stmt js_ast.Stmt) []js_
 						hasSideEffectFreeArguments = false
 						break
 					}
+
+					// A default value is evaluated when the function is called
+					if arg.DefaultOrNil.Data != nil && !p.astHelpers.ExprCanBeRemovedIfUnused(arg.DefaultOrNil) {
+						hasSideEffectFreeArguments = false
+						break
+					}
 				}
 				if hasSideEffectFreeArguments {
 					p.symbols[s.Fn.Name.Ref.InnerIndex].Flags |= ast.IsEmptyFunction
